@@ -204,6 +204,17 @@ PROPS["C10"] = {
     ],
 }
 
+PROPS["C13"] = {
+    "technique": "fault injection by truncation + metamorphic property testing (rapid): every file kind built by the real writers from a generated epoch is cut at every offset (small files) or at structure boundaries +-2 plus random offsets; lookups on the truncated copy are compared with the complete file",
+    "level_text": "For each generated epoch the real `index all` and `index gsfa` outputs are truncated: the four compact-index kinds, sig-exists (current and legacy format), slot-to-blocktime, the gsfa linked log / manifest / pubkey index, and the CAR. Readers are opened over the truncated bytes (in-memory ReaderAt, or files for the gsfa directory and the epoch level) and every stored key (<=200 per file) is looked up: the answer must equal the complete file's answer or be an error that is not `not found` (no `false`, no empty list, no other value). The same is checked through a loaded Epoch / the JSON-RPC handler with one truncated file. A recording ReaderAt determines for each (cut, key) whether the cut lies before the bytes the complete lookup reads. Exploration level; evidence counts individual lookups.",
+    "level_note": "A crash (panic) on a truncated file is loud and is counted separately (class n:*-panic); crashes are judged by C12, silent wrong answers here. evaluations = generated epochs + individual (file, cut, key) lookups; distinct_nontrivial counts generated epochs with at least one affected lookup, the number of affected lookups is class n:nontrivial.",
+    "rule": ("rapid draws an epoch spec and a cut seed; cuts: every offset for files <=4 KiB, else header/table/bucket boundaries +-2 and 60..200 random offsets; keys: every stored key up to 200 per file. non-trivial lookup = the cut lies before the highest byte the complete-file lookup of that key reads"),
+    "assumptions": ["reads of a truncated file behave like reads of bytes.Reader / os.File at EOF (short read + io.EOF)"],
+    "units": [
+        {"name": "truncation", "pkg": ".", "run": "TestVfC13", "checks": T(8, 320), "shards": T(8, 16), "timeout": T(900, 3000), "shrinktime": "20s", "transforms": GSFA_FASTPOLL, "env": ROOT_ENV},
+    ],
+}
+
 
 # properties not (yet) claimed by a check; kept current by hand
 NOT_APPLICABLE = [
